@@ -76,7 +76,16 @@ def vc_hooks():
             return SBool(IS_BUILTIN(item.t))
         return NotImplemented
 
-    return {'getattr': getattr_, 'slice': slice_, 'contains': contains}
+    def index(vm, obj, idx):
+        # name[0]: unlike name[:1] it raises IndexError on an empty name (isar passes type="" through)
+        if isinstance(obj, TypeName) and idx == 0:
+            from vf.pyvc import NONEMPTY
+            if vm.decide(NONEMPTY(obj.t)):
+                return Prefix1(obj.t)
+            raise PyRaise(I.ExcClass('IndexError'), ('string index out of range',))
+        return NotImplemented
+
+    return {'getattr': getattr_, 'slice': slice_, 'contains': contains, 'index': index}
 
 
 def _props(vm, st):
@@ -176,7 +185,7 @@ def vc_while_variant(vm, env):
     return TD_RANK(v.t) + 1
 
 
-Contract(MODEL, 'validate_composability', ['C12'], vc_setup, None, shapes=SH, modifies=[], raises=vc_raises, hooks=vc_hooks(),
+Contract(MODEL, 'validate_composability', ['C12', 'C13'], vc_setup, None, shapes=SH, modifies=[], raises=vc_raises, hooks=vc_hooks(),
          loops={1: LoopAnn(lambda vm, env, k: [], index='k'),
                 2: LoopAnn(vc_while_inv, variant=vc_while_variant,
                            locals_={'sizer_type': lambda vm, name: SOptRef(vm.fresh(name + '#none', z3.BoolSort()), vm.fresh(name, Ref), None)})},
@@ -221,7 +230,7 @@ def vc2_post(vm, st, result):
     return [('accepted => every member obeys the composability rules', z3.Implies(z3.And(0 <= j, j < n), legal_member(vm, st, j)))]
 
 
-Contract(MODEL, 'validate_composability', ['C12'], vc2_setup, vc2_post, shapes=SH, modifies=[], raises=vc_raises, hooks=vc_hooks(),
+Contract(MODEL, 'validate_composability', ['C12', 'C13'], vc2_setup, vc2_post, shapes=SH, modifies=[], raises=vc_raises, hooks=vc_hooks(),
          loops={1: Loop1(vc_inv, index='k'),
                 2: LoopAnn(vc2_while_inv, variant=vc_while_variant,
                            locals_={'sizer_type': lambda vm, name: SOptRef(vm.fresh(name + '#none', z3.BoolSort()), vm.fresh(name, Ref), None)})},
